@@ -464,6 +464,10 @@ pub struct Meta17 {
     pub absolute: bool,
     #[serde(default)]
     pub canary: Option<String>,
+    /// `-A <lint>` on the command line (DuplicateFile or All): silences the warnings, must not change which files
+    /// are compiled
+    #[serde(default)]
+    pub allow: Option<String>,
 }
 
 const CAPTURE: &str = "capture-gen";
@@ -868,10 +872,17 @@ pub fn generate(rng: &mut Rng) -> Scenario {
             ri += 1;
         }
     }
+    // one case in four allows the DuplicateFile lint (by name or through All): the warnings go, the de-duplication
+    // must stay (drawn last, so that the worlds of a seed are what they were before this option existed)
+    let allow = if rng.chance(1, 4) { Some(rng.pick(&["DuplicateFile", "All"]).to_string()) } else { None };
+    if let Some(a) = &allow {
+        argv.push("-A".into());
+        argv.push(a.clone());
+    }
     argv.push("-G".into());
     argv.push(CAPTURE.into());
     let absolute = argv.iter().any(|a| a.contains("@ROOT@"));
-    let meta = Meta17 { sources, references, absolute, canary };
+    let meta = Meta17 { sources, references, absolute, canary, allow };
     Scenario { world, argv, sim, note: "C17".into(), meta: serde_json::to_value(&meta).unwrap() }
 }
 
@@ -1118,7 +1129,13 @@ pub fn judge(s: &Scenario, r: &RunResult) -> (Vec<Violation>, Vec<&'static str>)
             None => vio.push(v("duplicate-warning-for-unknown-path", d.message.clone())),
         }
     }
-    if exp.loops {
+    if meta.allow.is_some() {
+        // The lint is allowed: whether a warning is shown is C13's subject, not this property's. Everything above
+        // (the ordered source list, the reference set, nothing compiled twice) was judged all the same.
+        if !exp.duplicates.is_empty() {
+            probes.push("duplicate inside a list with the DuplicateFile lint allowed");
+        }
+    } else if exp.loops {
         for id in exp.duplicates.keys() {
             if !got_dups.contains_key(id) {
                 vio.push(v("duplicate-not-reported", format!("{id} is reached more than once within one list but no DuplicateFile warning names it")));
@@ -1184,6 +1201,7 @@ impl Property for C17 {
             "short read / EINTR on an input file",
             "link cycle answered with an I/O error",
             "un-stat-able plain file reported (optional)",
+            "duplicate inside a list with the DuplicateFile lint allowed",
         ]
     }
     fn extra_shrinks(&self, case: &Case) -> Vec<Case> {
@@ -1198,6 +1216,10 @@ impl Property for C17 {
             for r in &m.references {
                 argv.push("-R".into());
                 argv.push(r.clone());
+            }
+            if let Some(a) = &m.allow {
+                argv.push("-A".into());
+                argv.push(a.clone());
             }
             argv.push("-G".into());
             argv.push(CAPTURE.into());
